@@ -180,6 +180,7 @@ impl SubSocket {
         // A failure on one peer's connection must not keep the remaining peers from being
         // told: go on, and report the first error once everyone has been tried.
         let mut first_error = None;
+        let mut dead_peers = Vec::new();
         while let Some(mut peer) = iter {
             if let Err(e) = peer
                 .send_queue
@@ -187,8 +188,15 @@ impl SubSocket {
                 .await
             {
                 first_error.get_or_insert(e);
+                dead_peers.push(peer.key().clone());
             }
             iter = peer.next_async().await;
+        }
+        // A connection whose writes fail is dead: forget the peer, otherwise it is kept (and
+        // its error reported again by every later subscription change) for as long as its
+        // read side stays silent.
+        for peer_id in dead_peers {
+            self.backend.peer_disconnected(&peer_id);
         }
         match first_error {
             None => Ok(()),
